@@ -763,6 +763,11 @@ func c10LongHistory(c c10Long) []int {
 			h = append(h, idx(y, uint32(1+i%2)))
 		}
 		h = append(h, c10OpFirstAgain)
+	case 15: // N end descriptors (nothing is ever opened), each with a new signal time: a very long life of ONE tracker
+		// (counters inside it pass 2^16); used with the same object processed again at positions around 65536
+		for i := 0; i < c.N; i++ {
+			h = append(h, idx(0x31, uint32(1+i%3)))
+		}
 	case 14: // pattern 8 with fillers of the SAME type as the first descriptor (for the types whose start does not
 		// close an earlier start of its own type): the first one ends up buried under later open ones of its type
 		x, y := c.resubmit()
@@ -863,11 +868,17 @@ func init() {
 				"distinct-pts", "distinct-pts", 4, 5),
 			&engine.Enum[c10Long]{
 				Name: "long-histories",
-				Rule: "six re-submission patterns (a descriptor of each of the 13 types that are kept open - 12 out types and the program breakaway -, N = 0..15 other signals with other signal times that leave it open [the others of another type, or of its OWN type where a start does not close an earlier start of the same type; or after it was closed explicitly or by its own end descriptor; or followed by a different descriptor that carries the FIRST one's signal time, and one more filler, so that a record for that time exists which lacks the first object], then the same object again: while its signal time is still on record it must be rejected as a duplicate with the list unchanged; it may never sit in the open list twice; re-opening a descriptor that had been reported closed once its signal time is forgotten is the recorded known finding) and five history patterns (start/end pairs; many chapters closed by one program end; breakaway/resumption cycles with content opened in the blackout; placement opportunities with explicit closes; nested breakaways closed by unscheduled-event and network signals) repeated N = 1..12 (thorough 1..40) times with always-distinct PTS (histories of up to ~360 calls, beyond the 10-slot duplicate ring), each also with the same object processed again after every position; the identity monitor runs after every call." + common,
+				Rule: "one tracker fed 65560 end descriptors with always-new signal times and the same object again at each position 65528..65548 (counters of a long-lived tracker pass 2^16); six re-submission patterns (a descriptor of each of the 13 types that are kept open - 12 out types and the program breakaway -, N = 0..15 other signals with other signal times that leave it open [the others of another type, or of its OWN type where a start does not close an earlier start of the same type; or after it was closed explicitly or by its own end descriptor; or followed by a different descriptor that carries the FIRST one's signal time, and one more filler, so that a record for that time exists which lacks the first object], then the same object again: while its signal time is still on record it must be rejected as a duplicate with the list unchanged; it may never sit in the open list twice; re-opening a descriptor that had been reported closed once its signal time is forgotten is the recorded known finding) and five history patterns (start/end pairs; many chapters closed by one program end; breakaway/resumption cycles with content opened in the blackout; placement opportunities with explicit closes; nested breakaways closed by unscheduled-event and network signals) repeated N = 1..12 (thorough 1..40) times with always-distinct PTS (histories of up to ~360 calls, beyond the 10-slot duplicate ring), each also with the same object processed again after every position; the identity monitor runs after every call." + common,
 				Gen: func(r *engine.Run, emit func(c10Long)) {
 					maxN := 12
 					if r.Thorough() {
 						maxN = 40
+					}
+					// one tracker that has recorded 2^16 signal times: the same object again at every position around the mark
+					for at := 65528; at <= 65548; at++ {
+						if r.Thorough() || at%2 == 0 || (at >= 65534 && at <= 65542) {
+							emit(c10Long{Pattern: 15, N: 65560, Again: at})
+						}
 					}
 					for _, p := range []int{8, 9, 11, 12, 13, 14} {
 						for x := range c10ResubmitXs {
